@@ -175,6 +175,11 @@ STRUCTURED.append(('same-section reference ${O-O} in [Pair]',
 STRUCTURED.append(('same-section reference shadows a variable of the same name',
                    '[Variables]\nO-O : as.zero\ncutoff : 9.0\n\n[Tabulation]\ntarget : LAMMPS\nnr : 5\ncutoff : 2.0\n\n[Pair]\nO-O : as.buck 1000.0 0.3 32.0\nS-S : ${O-O}\nU-O : as.polynomial ${Tabulation:cutoff} 1.0\n',
                    _P + '[Pair]\nO-O : as.buck 1000.0 0.3 32.0\nS-S : as.buck 1000.0 0.3 32.0\nU-O : as.polynomial 2.0 1.0\n', []))
+STRUCTURED.append(('override / command-line value that contains a ${SECTION:KEY} placeholder and, later, an = sign',
+                   '[Variables]\nrho : 0.3\nr_cut : 1.5\n\n' + _P + '[Pair]\nO-O : as.zero\nU-O : as.lj 0.2 2.5\n',
+                   _P + '[Pair]\nO-O : >0 as.buck 1000.0 0.3 32.0 >=1.5 as.zero\nU-O : >0 as.lj 0.2 2.5 >=1.5 as.buck 5.0 0.3 0.0\n',
+                   [['Pair', 'O-O', '>0 as.buck 1000.0 ${Variables:rho} 32.0 >=${Variables:r_cut} as.zero'],
+                    ['Pair', 'U-O', '>0 as.lj 0.2 2.5 >=${Variables:r_cut} as.buck 5.0 ${Variables:rho} 0.0']]))
 _E = '[Tabulation]\ntarget : setfl\nnr : 4\ndr : 0.5\nnrho : 4\ndrho : %s\n\n[EAM-Embed]\nAl : >=0 as.polynomial 0.1 -1.0 0.01\nCu : %s\n\n[EAM-Density]\nAl : >=0 as.exp_spline 1.1 -1.1 0.03 0 0 0 0.1\nCu : >=0 as.exp_spline 0.9 -1.0 0.02 0 0 0 0.05\n\n[Pair]\nCu-Al : >=0 as.morse 1.3 3.0 0.35\n'
 STRUCTURED.append(('same-section references in [Tabulation] (drho : ${dr}) and [EAM-Embed] (Cu : ${Al})',
                    _E % ('${dr}', '${Al}'), _E % ('0.5', '>=0 as.polynomial 0.1 -1.0 0.01'), []))
